@@ -211,6 +211,20 @@ def prove_path_against_def(ctx, tag, fn, z, pc, axioms, ret, dfn, pre):
         ctx.assume_note('A-SPECFN: small-z enclosure of f_PS (module docstring)')
     r = z3.substitute(_subst_ln(z3real(ret), z, L), (fPS(z), fps_term))
     d = z3.substitute(_subst_ln(dfn, z, L), (fPS(z), fps_term))
+    if encl[0] == 'large' and 'Li2' in str(d):
+        # Li2(1 - u), u = 1/z <= 1/Z0: reflection Li2(1-u) = pi^2/6 - ln(u) ln(1-u) - Li2(u) with ln u = -ln z, ln(1-u) = -sum u^k/k, Li2(u) = sum u^k/k^2; tails bounded by the
+        # geometric series: |sum_{k>K} u^k/k| <= u^(K+1)/((K+1)(1-1/Z0)), |sum_{k>K} u^k/k^2| <= u^(K+1)/((K+1)^2 (1-1/Z0))
+        th1, th2 = z3.Real('theta_1'), z3.Real('theta_2')
+        KK = 8
+        u = 1 / z
+        R = to_z3(1 / (1 - Fr(1, Z0)))
+        S1 = sum((u ** k) / k for k in range(1, KK + 1)) + th1 * (u ** (KK + 1)) / (KK + 1) * R
+        S2 = sum((u ** k) / (k * k) for k in range(1, KK + 1)) + th2 * (u ** (KK + 1)) / ((KK + 1) ** 2) * R
+        li_term = PI * PI / 6 - L * S1 - S2
+        d = z3.substitute(d, (Li2(1 - 1 / z), li_term))
+        r = z3.substitute(r, (Li2(1 - 1 / z), li_term))
+        box = box + [th1 >= 0, th1 <= 1, th2 >= 0, th2 <= 1]
+        ctx.assume_note('A-SPECFN: Li2(1-u) = pi^2/6 - ln(u) ln(1-u) - Li2(u) with the power series of ln(1-u) and Li2(u) truncated at u^8 and geometric tail bounds (u = 1/z <= 1/%d)' % Z0)
     if 'fPS' in str(r) or 'ln(' in str(r).replace('ln(2)', '').replace('ln(4)', '') or 'Li2' in str(r):
         _refute_or_undecided(ctx, tag, fn, z, assum, ret, dfn, 'expansion path with special-function atoms other than ln z and f_PS(z)')
         return
